@@ -267,3 +267,35 @@ func verifScenarioPBLFinalizer() {
 		}
 	}
 }
+
+// verifScenarioDeferredRelease (C02 P7, C04 R2).
+func verifScenarioDeferredRelease() {
+	mb, me, mp := verifPBLBounds()
+	x := verifNewPBL(mb, me, mp)
+	bl := x.bl
+	vnd.Assume(bl.blocksReleasing == 0)
+	pending0 := len(bl.blocksToRelease)
+	bl.GetPersistentState()
+	popped := 0
+	if len(bl.blocks) > 0 && vnd.Choose(2) == 1 {
+		vnd.Cover("popped-after-export")
+		bl.PopFront()
+		popped = 1
+	}
+	for _, b := range x.pend {
+		vnd.Assert(b.releases == 0, "a block was released before the state file was written")
+	}
+	bl.NotifyPersistentStateWritten()
+	for i, b := range x.pend {
+		if i < pending0 {
+			vnd.Assert(b.releases == 1, "a block listed for release when the state was exported was not released exactly once")
+		}
+	}
+	if popped == 1 {
+		vnd.Assert(x.blocks[0].releases == 0, "a block popped after the state was exported was released by that state write")
+		vnd.Assert(len(bl.blocksToRelease) == 1, "the block popped after the export is no longer pending")
+		vnd.Assert(!bl.blockReleaseWakeup.isBlocking, "release wake-up blocked although a block still awaits release")
+	}
+	verifPBLInvariant(bl, "after the state write")
+	vnd.Cover("released")
+}
